@@ -11,6 +11,7 @@ MANIFEST = {
     'text': 'partial: Lean refinement theorems for the read-ahead/consume window of archive_read.c (every format reader '
             'sees the archive only through it): observations of any interface program depend only on the concatenation '
             'of the callback blocks, not on the partition or on skip capability. Tied to the C by the rda engine.',
+    'technique': 'Lean 4 refinement proof (representation invariant + abstraction to the byte stream, induction over client programs) + model/C differential correspondence',
     'note': 'Unmodelled format parsers are covered only by the interface contract; see DESIGN.md C05.',
 }
 ENGINES = [Rda(faults=False)]
